@@ -136,6 +136,21 @@ def macro_builds_linked_multictl(H, cname):
         H.check(f"mapping_names_controller[{name}]", mp.controller == ctl.number)
         H.check(f"mapping_has_8_fields[{name}]", all(hasattr(mp, f) for f in ("min", "max", "controller", "flags", "future_use2", "future_use3", "future_use4", "future_use5")))
         H.check(f"other_mappings_default[{name}]", all(x.controller == 0 for x in mc.mappings.values[1:]))
+    # the target sits in a position that was EMPTY before (a project with a hole, as loaded files have):
+    # the macro must link to that very module
+    name, ctl = next((n, c) for n, c in cls.controllers.items() if not n.startswith("user_defined_"))
+    p = Project()
+    p.attach_module(None)
+    bystander = p.new_module(Amplifier)
+    p.attach_module(None)
+    p.new_module(Amplifier)
+    p.modules[bystander.index] = None  # leaves holes at positions 1 and 2, a module at 3
+    target = p.new_module(cls)
+    exc, mc = H.raises(MultiCtl.macro, p, (target, name))
+    H.check("macro_into_project_with_holes_succeeds", exc is None and type(mc) is MultiCtl)
+    if exc is None and type(mc) is MultiCtl:
+        H.check("macro_links_the_module_in_the_filled_hole", len(mc.out_links) == 1 and p.modules[mc.out_links[0]] is target
+                and target.in_links == [mc.index] and p.modules[mc.index] is mc)
     # a macro built with nothing but the defaults of the public API is part of a project that can be
     # saved and loaded again (C01), and the MultiCtl comes back with its mapping, gain and link
     name, ctl = next((n, c) for n, c in cls.controllers.items() if not n.startswith("user_defined_"))
@@ -199,6 +214,42 @@ def curve_set_via_fn_is_clamped(H, _):
         H.check(f"curve[{x}].within_declared_bounds", H.and_(vals[x] >= 0, vals[x] <= 32768))
         H.check(f"curve[{x}].is_f_clamped", vals[x] == H.ite(y < 0, 0, H.ite(y > 32768, 32768, y)))
     H.cover("reached")
+
+
+@contract("default_curve_is_independent_of_other_multictls", ["C20", "C17"], kind="bounded",
+          targets=["rv.chunks.array:ArrayChunk.reset", "rv.modules.base.multictl:BaseMultiCtl.CurveArray", "rv.modules.multictl:MultiCtl.on_value_changed"],
+          bound="one history: a MultiCtl whose curve is edited in place into a non-monotone shape, then a second, macro-built MultiCtl in the same and in another project; all 32769 inputs; natively")
+def default_curve_is_independent_of_other_multictls(H, _):
+    """A MultiCtl that keeps its default curve delivers monotonically and in range whatever was done
+    to the curve of ANOTHER MultiCtl before it was built; its curve is the documented identity ramp."""
+    p = Project()
+    first = p.new_module(MultiCtl)
+    for i in range(0, 257, 2):
+        first.curve.values[i] = (i * 37) % 32768
+    for proj in (p, Project()):
+        amp = proj.new_module(Amplifier)
+        mc = MultiCtl.macro(proj, (amp, "volume"), name="second")
+        H.check("fresh_curve_is_documented_ramp", list(mc.curve.values) == [min(32768, x * 128) for x in range(257)],
+                witness={"first_difference": next((i for i, (a, b) in enumerate(zip(mc.curve.values, [x * 128 for x in range(257)])) if a != b), None)})
+        prev = None
+        ok_range = ok_mono = True
+        bad = None
+        for v in range(0, 32769):
+            try:
+                mc.value = v
+            except Exception as e:  # noqa
+                ok_range, bad = False, (v, repr(e))
+                break
+            got = amp.volume
+            if not (0 <= got <= 1024):
+                ok_range, bad = False, (v, got)
+                break
+            if prev is not None and got < prev:
+                ok_mono, bad = False, (v, got, prev)
+                break
+            prev = got
+        H.check("delivery_within_range", ok_range, witness={"at": bad})
+        H.check("delivery_monotone", ok_mono, witness={"at": bad})
 
 
 def _bounded_cases(tier):
